@@ -499,7 +499,7 @@ func TestC11(t *testing.T) {
 	excl.ArrayAlias = rec.KnownActive("KF-array-alias", false)
 	rec.ReplayTier()
 
-	check(rec, "splice-random", scale(6000, 200000), func(rt *rapid.T) {
+	check(rec, "splice-random", scale(6000, 2000000), func(rt *rapid.T) {
 		c := genC11Splice(rt)
 		msg := c11SpliceCheck(c)
 		kind := strings.SplitN(c.Recipe, ":", 2)[0]
@@ -511,7 +511,7 @@ func TestC11(t *testing.T) {
 		}
 	})
 
-	check(rec, "fault-random", scale(12000, 300000), func(rt *rapid.T) {
+	check(rec, "fault-random", scale(12000, 4000000), func(rt *rapid.T) {
 		f, base := genC11Fault(rt)
 		d := differential(f.Case, false)
 		switch d.Verdict {
